@@ -1,21 +1,36 @@
 #!/usr/bin/env python3
 """Store confirmed seeded mutants under /verif/seeded/<id>/ (patch.diff, demo.rs, meta.json).
-usage: seedstore.py <id> [<id> ...]   — reads /tmp/seed/<id>.diff, <id>_demo.rs, <id>_meta.json, confirm-<id>.txt, runs seedcheck."""
+usage: seedstore.py <id> [<id> ...]   — reads /tmp/seed/<id>.diff, <id>_demo.rs, <id>_meta.json, confirm-<id>.txt, runs seedcheck
+(thorough tier when the mutant only manifests under a cargo feature)."""
 import json, os, re, shutil, subprocess, sys
 for mid in sys.argv[1:]:
     src = '/tmp/seed'
     conf = open('%s/confirm-%s.txt' % (src, mid)).read()
-    res = re.findall(r'^test result: (\w+)\. (\d+) passed; (\d+) failed', conf, re.M)
-    # order: demo on original, suite with mutant (4 lines), demo with mutant
-    ok_orig = res[0][0] == 'ok'
-    suite_ok = all(r[0] == 'ok' for r in res[1:-1]) and sum(int(r[1]) for r in res[1:-1]) >= 166
-    demo_fails = res[-1][0] == 'FAILED'
+    sec = {}
+    cur = None
+    for line in conf.splitlines():
+        if line.startswith('-- '):
+            cur = line[3:].split(':')[0].split(' (')[0]
+            sec[cur] = []
+        elif cur:
+            sec[cur].append(line)
+    def results(name):
+        return re.findall(r'^test result: (\w+)\. (\d+) passed; (\d+) failed', '\n'.join(sec.get(name, [])), re.M)
+    orig = results('demo on original')
+    suite = results('existing suite with mutant')
+    mut = results('demo with mutant')
+    ok_orig = bool(orig) and all(r[0] == 'ok' for r in orig)
+    suite_ok = all(r[0] == 'ok' for r in suite) and sum(int(r[1]) for r in suite) >= 166
+    mut_txt = '\n'.join(sec.get('demo with mutant', []))
+    demo_fails = any(r[0] == 'FAILED' for r in mut) or ('error: test failed' in mut_txt and not mut)
     if not (ok_orig and suite_ok and demo_fails and 'patch applied' in conf):
-        print(mid, 'NOT CONFIRMED', res)
+        print(mid, 'NOT CONFIRMED', orig, suite, mut)
         continue
-    out = subprocess.run(['/verif/tools/seedcheck.py', '%s/%s.diff' % (src, mid)], capture_output=True, text=True).stdout
-    caught = json.loads([l for l in out.splitlines() if l.startswith('{')][-1])
     meta = json.load(open('%s/%s_meta.json' % (src, mid)))
+    feat = (meta.get('features') or '').strip()
+    tier = 'thorough' if feat else 'quick'
+    out = subprocess.run(['/verif/tools/seedcheck.py', '%s/%s.diff' % (src, mid), tier], capture_output=True, text=True).stdout
+    caught = json.loads([l for l in out.splitlines() if l.startswith('{')][-1])
     d = '/verif/seeded/%s' % mid
     os.makedirs(d, exist_ok=True)
     shutil.copy('%s/%s.diff' % (src, mid), d + '/patch.diff')
@@ -25,16 +40,18 @@ for mid in sys.argv[1:]:
         'breaks_property': meta.get('property', mid.split('_')[0]),
         'summary': meta.get('summary'),
         'needs_to_manifest': meta.get('needs'),
+        'features': feat,
         'origin': 'independent sub-agent given only the property text and a scratch worktree',
         'confirmed_by_me': {
             'how': 'tools/seedconfirm.sh in a fresh scratch worktree of /repo HEAD: demo passes on the original; patch applies; cargo build ok; '
-                   'full existing suite passes with the mutant; demo fails with the mutant',
-            'demo_on_original': '%s passed, %s failed' % (res[0][1], res[0][2]),
-            'existing_suite_with_mutant': '%d passed, 0 failed' % sum(int(r[1]) for r in res[1:-1]),
-            'demo_with_mutant': '%s passed, %s failed' % (res[-1][1], res[-1][2]),
+                   'full existing suite passes with the mutant; demo fails with the mutant' + (' (demo built with --features %s on nightly)' % feat if feat else ''),
+            'demo_on_original': '%s passed, %s failed' % (orig[0][1], orig[0][2]),
+            'existing_suite_with_mutant': '%d passed, 0 failed' % sum(int(r[1]) for r in suite),
+            'demo_with_mutant': ('%s passed, %s failed' % (mut[-1][1], mut[-1][2])) if mut else 'test binary aborted (unsafe precondition check / out-of-bounds access)',
         },
+        'check_tier_used': tier,
         'checks_that_fire': caught,
         'detected': bool(caught),
-        'apply': 'git -C /repo apply /verif/seeded/%s/patch.diff ; ./check <prop> ; git -C /repo checkout -- .' % mid,
+        'apply': 'git -C /repo apply /verif/seeded/%s/patch.diff ; ./check <prop>%s ; git -C /repo checkout -- .' % (mid, ' --tier thorough' if feat else ''),
     }, open(d + '/meta.json', 'w'), indent=1)
     print(mid, 'stored; caught by', caught)
